@@ -259,7 +259,8 @@ func evalCase(cs Case) (class, msg string) {
 	if cs.Header != "" {
 		// two values under the same name (two header lines in the dump): both are credentials
 		// (the third has the shape of real credentials: colons and separators inside the value)
-		rq.Header[cs.Header] = []string{secret, "second-" + secret, "Basic user:third-" + secret + ": k=v; x:y"}
+		// and a one-byte value first: its redacted line is longer than the original line
+		rq.Header[cs.Header] = []string{"k", secret, "second-" + secret, "Basic user:third-" + secret + ": k=v; x:y"}
 	}
 	rw := fx.NewRW()
 	var under http.ResponseWriter = rw
